@@ -137,9 +137,48 @@ func regexToDFA(regex string) (*auto.DFA, error) {
 		return nil, err
 	}
 
-	d := n.ToDFA().Minimize().EliminateDeadStates().ReindexStates()
+	d := reindexStates(n.ToDFA().Minimize().EliminateDeadStates())
 
 	return d, nil
+}
+
+// reindexStates reassigns indices to the states of a DFA based on a breadth-first traversal from the start state.
+// It yields the same numbering as DFA.ReindexStates, which cannot be used for automata with more than 64 states
+// (its queue fails once 64 states have passed through it).
+func reindexStates(d *auto.DFA) *auto.DFA {
+	index := map[auto.State]auto.State{d.Start: 0}
+	getOrCreate := func(s auto.State) auto.State {
+		if _, ok := index[s]; !ok {
+			index[s] = auto.State(len(index))
+		}
+
+		return index[s]
+	}
+
+	symbols := d.Symbols()
+
+	for queue := []auto.State{d.Start}; len(queue) > 0; queue = queue[1:] {
+		for _, a := range symbols {
+			if t := d.Next(queue[0], a); t != -1 {
+				if _, ok := index[t]; !ok {
+					getOrCreate(t)
+					queue = append(queue, t)
+				}
+			}
+		}
+	}
+
+	dfa := auto.NewDFA(0, nil)
+
+	for f := range d.Final.All() {
+		dfa.Final.Add(getOrCreate(f))
+	}
+
+	for tr := range d.Transitions() {
+		dfa.Add(getOrCreate(tr.State), tr.Symbol, getOrCreate(tr.Next))
+	}
+
+	return dfa
 }
 
 // Productions returns an ordered list of all production rules in the grammar of the spec.
